@@ -256,7 +256,7 @@ func firstErrorLine(out string) string {
 }
 
 func sanitizeFile(s string) string {
-	r := strings.NewReplacer("/", "_", "(", "", ")", "", "*", "p", " ", "_", "#", "-", ":", "_", "$", "_")
+	r := strings.NewReplacer("/", "_", "(", "", ")", "", "*", "p", " ", "_", "#", "-", ":", "_", "$", "_", "[", "_", "]", "_", "=", "", ",", "_", "@", "_", "!", "_")
 	s = r.Replace(s)
 	if len(s) > 120 {
 		s = s[:120]
